@@ -1005,7 +1005,8 @@ func checkC19(ix *index, add addFn) {
 		// KeepAlive's error: ErrPingTimeout only if a ping really timed out, the
 		// context's own error (cancelled / deadline) if the caller's context ended
 		checkC13KA(ix, func(rule, detail string, feat map[string]string) {
-			if rule == "ctx" || rule == "timeout" {
+			if rule == "ctx" || rule == "timeout" || rule == "ping-error" {
+				// (ping-error: a Ping that failed for a reason of its own is not a ping timeout)
 				add("no-false-sentinel", "KeepAlive: "+detail, map[string]string{"via": "C13/" + rule})
 			}
 		})
